@@ -53,7 +53,9 @@ class Trial(BaseTrial):
 
         self.storage = self.study._storage
 
-        self._cached_frozen_trial = self.storage.get_trial(self._trial_id)
+        # The trial is copied because this object updates it in place, while storages may
+        # hand out the object they (and earlier readers) hold.
+        self._cached_frozen_trial = copy.deepcopy(self.storage.get_trial(self._trial_id))
         study = pruners._filter_study(self.study, self._cached_frozen_trial)
 
         self.study.sampler.before_trial(study, self._cached_frozen_trial)
